@@ -259,6 +259,11 @@ func indexHeader(
 		hdr.Size = int64(size)
 	}
 
+	// A global extended header (i.e. the one `git archive` writes first) sets defaults for the members that follow it and is not an entry itself
+	if hdr.Typeflag == tar.TypeXGlobalHeader {
+		return nil
+	}
+
 	// A sparse member of a GNU archive is a regular file; records that are derived from the entry later (updates, moves, deletions) can't carry the sparse typeflag, as it is only readable in a GNU header with a sparse map
 	if hdr.Typeflag == tar.TypeGNUSparse {
 		hdr.Typeflag = tar.TypeReg
